@@ -759,7 +759,10 @@ fn mode_ising(a: &Args) {
         let input = format!("isingm {} {} {} {} {}", t, f, rat(beta), rat(off), list(&ns));
         emit(t / f >= 1, &input, &format!("{} {}", samples.len(), fl(e)), Some(oracle));
     }
-    // (b) tempering drivers on real replicas against a clone driven one step at a time
+    // (b) tempering drivers on real replicas against a clone driven one step at a time. Two thirds of the cases
+    // use a Hamiltonian ladder (|J|, Gamma and |h| scaled per slot, same graph and signs: allowed by
+    // `can_swap_graphs`), so that the slots' energy offsets differ; the offset belongs to the slot.
+    let (mut ladder_cases, mut ladder_with_swap) = (0usize, 0usize);
     for ci in 0..cases {
         let nvars = g.range(2, 5) as usize;
         let nrep = g.range(2, 5) as usize;
@@ -768,32 +771,57 @@ fn mode_ising(a: &Args) {
         let s = g.range(1, 9) as usize;
         let f = g.range(1, 9) as usize;
         let parallel = ci % 2 == 1;
+        let ladder = ci % 3 != 0;
+        let h = if ci % 4 == 3 { *g.pick(&[-0.5, 0.25, 0.75]) } else { 0.0 };
+        // a beta ladder, or (every other ladder case) one common beta so that only the Hamiltonians differ
+        let common_beta = ladder && ci % 6 < 3;
         let mut tc: DefaultTemperingContainer<SplitMix64, SplitMix64> = TemperingContainer::new(SplitMix64::new(g.next()));
         let mut betas = vec![];
+        let mut offs = vec![];
         for i in 0..nrep {
-            let beta = [0.5, 1.0, 2.0, 4.0][i % 4];
-            let q = Ising::new_with_rng(edges.clone(), tr, 0.0, cutoff, SplitMix64::new(g.next()), None);
+            let beta = if common_beta { 1.0 } else { [0.5, 1.0, 2.0, 4.0][i % 4] };
+            // slot i: couplings scaled by (8 + i)/8, field by (8 + 2i)/8, longitudinal by (4 + i)/4 (all dyadic)
+            let (sj, sg, sh) = if ladder { ((8 + i) as f64 / 8.0, (8 + 2 * i) as f64 / 8.0, (4 + i) as f64 / 4.0) } else { (1.0, 1.0, 1.0) };
+            let e: Vec<((usize, usize), f64)> = edges.iter().map(|(ab, j)| (*ab, j * sj)).collect();
+            let q = Ising::new_with_rng(e, tr * sg, h * sh, cutoff, SplitMix64::new(g.next()), None);
+            // the slot's offset, captured at construction
+            offs.push(q.get_offset());
             tc.add_qmc_stepper(q, beta).unwrap();
             betas.push(beta);
         }
         tc.timesteps(g.range(0, 10) as usize);
         let mut tc2 = tc.clone();
         let r = if parallel { tc.parallel_timesteps_sample(t, s, f) } else { tc.timesteps_sample(t, s, f) };
-        let offs: Vec<f64> = tc2.graph_ref().iter().map(|(q, _)| q.get_offset()).collect();
         let mut nseq: Vec<Vec<usize>> = vec![vec![]; nrep];
         let mut want: Vec<Vec<Vec<bool>>> = vec![vec![]; nrep];
+        let mut offset_moved: Option<String> = None;
         for k in 1..=t {
-            tc2.timesteps(1);
+            // manual reference: one `timestep` per replica, `get_n`, `tempering_step`
+            for (q, beta) in tc2.graph_mut().iter_mut() {
+                q.timestep(*beta);
+            }
             for i in 0..nrep {
                 nseq[i].push(tc2.graph_ref()[i].0.get_n());
             }
             if k % s == 0 {
                 tc2.tempering_step();
             }
+            for i in 0..nrep {
+                let o = tc2.graph_ref()[i].0.get_offset();
+                if o != offs[i] && offset_moved.is_none() {
+                    offset_moved = Some(format!("slot {}: get_offset() is {} after step {} but was {} at construction", i, o, k, offs[i]));
+                }
+            }
             if k % f == 0 {
                 for i in 0..nrep {
                     want[i].push(tc2.graph_ref()[i].0.state_ref().to_vec());
                 }
+            }
+        }
+        if ladder {
+            ladder_cases += 1;
+            if tc2.get_total_swaps() > 0 {
+                ladder_with_swap += 1;
             }
         }
         let mut oracle = Ok(());
@@ -812,6 +840,15 @@ fn mode_ising(a: &Args) {
         if tc.get_total_swaps() != tc2.get_total_swaps() {
             oracle = Err("real replicas: number of accepted swaps differs".into());
         }
+        for i in 0..nrep {
+            let o = tc.graph_ref()[i].0.get_offset();
+            if o != offs[i] {
+                oracle = Err(format!("real replicas: slot {}: get_offset() is {} after the run but was {} at construction", i, o, offs[i]));
+            }
+        }
+        if let Some(m) = offset_moved {
+            oracle = Err(format!("real replicas (reference loop): {}", m));
+        }
         let input = format!(
             "isingt {} {} {} {} {} {} {}",
             t,
@@ -826,6 +863,8 @@ fn mode_ising(a: &Args) {
         emit(true, &input, &out, Some(oracle));
         stat("ising_swaps_accepted", tc.get_total_swaps());
     }
+    stat("ising_ladder_cases", ladder_cases);
+    stat("ising_ladder_cases_with_accepted_swap", ladder_with_swap);
 }
 
 // ------------------------------------------------------------------------------------------------
@@ -958,18 +997,21 @@ fn mode_generic(a: &Args) {
         // identical stored matrices (so the graphs are swappable and `ham_eq` holds)
         let gs = g.clone();
         let mut betas = vec![];
+        let mut offs0: Vec<f64> = vec![];
         for i in 0..nrep {
             let mut gi = gs.clone();
             let shift = [3.0, -3.0, 0.5, -1.25][(i + ci) % 4];
             let (q, _) = gen_generic(&mut gi, nvars, shift, g.next());
             let beta = [0.5, 1.0, 2.0, 4.0][i % 4];
+            offs0.push(q.get_offset());
             tc.add_qmc_stepper(q, beta).unwrap();
             betas.push(beta);
         }
         tc.timesteps(g.range(0, 8) as usize);
         let mut tc2 = tc.clone();
         let r = if parallel { tc.parallel_timesteps_sample(t, s, f) } else { tc.timesteps_sample(t, s, f) };
-        let offs: Vec<f64> = tc2.graph_ref().iter().map(|(q, _)| q.get_offset()).collect();
+        // the slots' offsets as captured at construction
+        let offs: Vec<f64> = offs0.clone();
         let mut nseq: Vec<Vec<usize>> = vec![vec![]; nrep];
         let mut want: Vec<Vec<Vec<bool>>> = vec![vec![]; nrep];
         for k in 1..=t {
@@ -1000,6 +1042,12 @@ fn mode_generic(a: &Args) {
                     "generic replicas: slot {} (offset {}) energy {} but the per-step average of -n/beta + get_offset() is {}",
                     i, offs[i], r[i].1, doc
                 ));
+            }
+            for (which, c) in [("after the run", &tc), ("in the reference loop", &tc2)] {
+                let o = c.graph_ref()[i].0.get_offset();
+                if o != offs[i] {
+                    oracle = Err(format!("generic replicas: slot {}: get_offset() is {} {} but was {} at construction", i, o, which, offs[i]));
+                }
             }
         }
         let input = format!(
